@@ -9,9 +9,9 @@ Lemma transits_fixpoint n keep s :
   valid s = true -> canon_transits s = n -> (keep = true \/ s_depot s = false) -> s_lag s = false ->
   guard (Transits n keep) s = true /\ step (Transits n keep) s = SOk s.
 Proof.
-  intros Hv Hn Hk Hl. destruct s as [a tr per el lag mat pm kr eq].
+  intros Hv Hn Hk Hl. destruct s as [a tr per el lag mat pm kr eq bio].
   unfold_all. subst lag.
-  destruct a; destruct keep; cbn [andb orb negb absk_eqb] in *;
+  destruct a; destruct keep; destruct bio; cbn [andb orb negb absk_eqb] in *;
     try (destruct Hk; discriminate);
     destruct tr as [|[|tr]]; scbn; try discriminate; subst n; scbn;
     rewrite ?Nat.eqb_refl; scbn; split; try reflexivity; solve_step.
@@ -22,25 +22,25 @@ Definition idem_good (f : req) (s : sk) : Prop :=
 
 Lemma idem_abs f s : is_abs f = true -> valid s = true -> guard f s = true -> idem_good f s.
 Proof.
-  intros Hf Hv Hg. destruct s as [a tr per el lag mat pm kr eq].
+  intros Hf Hv Hg. destruct s as [a tr per el lag mat pm kr eq bio].
   unfold idem_good, guard, valid in *.
-  destruct f; try discriminate Hf; destruct a; destruct tr as [|[|tr]]; destruct lag;
+  destruct f; try discriminate Hf; destruct a; destruct tr as [|[|tr]]; destruct lag; destruct bio;
     cbn in *; try discriminate; repeat split; try reflexivity.
 Qed.
 
 Lemma idem_simple f s :
-  match f with ElFO | ElZO | ElMM | ElMix | LagOn | LagOff => True | _ => False end ->
+  match f with ElFO | ElZO | ElMM | ElMix | LagOn | LagOff | BioOn | BioOff => True | _ => False end ->
   valid s = true -> guard f s = true -> idem_good f s.
 Proof.
-  intros Hf Hv Hg. destruct s as [a tr per el lag mat pm kr eq].
-  unfold idem_good. destruct f; try contradiction; cbn; split; reflexivity.
+  intros Hf Hv Hg. destruct s as [a tr per el lag mat pm kr eq bio].
+  unfold idem_good. destruct f; try contradiction; destruct bio; cbn; split; reflexivity.
 Qed.
 
 Lemma idem_perset n s : valid s = true -> guard (PerSet n) s = true -> idem_good (PerSet n) s.
 Proof.
-  intros Hv Hg. destruct s as [a tr per el lag mat pm kr eq].
+  intros Hv Hg. destruct s as [a tr per el lag mat pm kr eq bio].
   unfold idem_good. unfold_all.
-  destruct kr, eq; cbn [andb orb negb] in *; solve_step.
+  destruct kr, eq, bio; cbn [andb orb negb] in *; solve_step.
 Qed.
 
 Lemma idem_transits n keep s :
@@ -52,6 +52,7 @@ Proof.
   destruct H as [Hv' [Hr Ho]].
   unfold request_detected in Hr. unfold others_unchanged in Ho.
   apply andb_true_iff in Hr. destruct Hr as [Hr1 Hr2]. apply Nat.eqb_eq in Hr1.
+  apply andb_true_iff in Ho. destruct Ho as [Ho _].
   apply andb_true_iff in Ho. destruct Ho as [Ho _].
   apply andb_true_iff in Ho. destruct Ho as [_ Hlag]. apply negb_true_iff in Hlag.
   apply transits_fixpoint; try assumption.
@@ -76,27 +77,31 @@ Definition undo_good (f : req) (s : sk) : Prop :=
 
 Theorem step_undo_lemma f s : valid s = true -> guard f s = true -> undo_good f s.
 Proof.
-  intros Hv Hg. destruct s as [a tr per el lag mat pm kr eq].
+  intros Hv Hg. destruct s as [a tr per el lag mat pm kr eq bio].
   unfold undo_good, undo_of.
   destruct f; try exact I; cbn [s_lag s_periph s_elim s_abs s_transits].
-  - (* AbsFO *) destruct a; destruct tr as [|[|tr]]; destruct lag; cbn in *; try exact I; intros _; reflexivity.
-  - (* AbsZO *) destruct a; destruct tr as [|[|tr]]; destruct lag; cbn in *; try exact I; intros _; reflexivity.
-  - (* AbsSeq *) destruct a; destruct tr as [|[|tr]]; destruct lag; cbn in *; try exact I; intros _; reflexivity.
+  - (* AbsFO *) destruct a; destruct tr as [|[|tr]]; destruct lag; destruct bio; cbn in *; try exact I;
+      intro Hg'; try discriminate Hg'; reflexivity.
+  - (* AbsZO *) destruct a; destruct tr as [|[|tr]]; destruct lag; destruct bio; cbn in *; try exact I;
+      intro Hg'; try discriminate Hg'; reflexivity.
+  - (* AbsSeq *) destruct a; destruct tr as [|[|tr]]; destruct lag; destruct bio; cbn in *; try exact I;
+      intro Hg'; try discriminate Hg'; reflexivity.
   - (* ElZO *) destruct el; cbn; try exact I; intros _; reflexivity.
   - (* ElMM *) destruct el; cbn; try exact I; intros _; reflexivity.
   - (* ElMix *) destruct el; cbn; try exact I; intros _; reflexivity.
   - (* LagOn *) destruct lag; cbn; try exact I; intros _; reflexivity.
+  - (* BioOn *) destruct bio; cbn; try exact I; intros _; reflexivity.
   - (* PerAdd *)
-    unfold_all. intro Hg'. destruct kr, eq; cbn [andb orb negb] in *; solve_step.
+    unfold_all. intro Hg'. destruct kr, eq, bio; cbn [andb orb negb] in *; solve_step.
   - (* PerSet *)
     unfold_all. destruct (Nat.ltb_spec per n) as [Hlt|Hge]; [|exact I].
-    destruct kr, eq; cbn [andb orb negb] in *; solve_step; intro Hg'; solve_step.
+    destruct kr, eq, bio; cbn [andb orb negb] in *; solve_step; intro Hg'; solve_step.
   - (* Transits n true, from a state without transits and without lag time *)
     destruct keep_depot; [|exact I].
     destruct tr as [|tr]; [|exact I]. destruct n as [|n]; [exact I|]. destruct lag; [exact I|].
     unfold_all.
-    destruct a; cbn [andb orb negb absk_eqb] in *; destruct n as [|n]; scbn; try exact I; try discriminate;
-      intros _; reflexivity.
+    destruct a; destruct bio; cbn [andb orb negb absk_eqb] in *; destruct n as [|n]; scbn; try exact I; try discriminate;
+      intro Hg'; try discriminate Hg'; reflexivity.
 Qed.
 
 (* the refusal set is exactly the documented one *)
@@ -106,9 +111,9 @@ Proof.
   intros Hv Hg. pose proof (step_ok_lemma f s Hv Hg) as H. unfold step_good in H. split.
   - intro E. rewrite E in H. exact H.
   - intro R. destruct f; try discriminate R.
-    destruct s as [a tr per el lag mat pm kr eq]. unfold_all.
+    destruct s as [a tr per el lag mat pm kr eq bio]. unfold_all.
     destruct n as [|[|n]]; try discriminate R.
-    destruct a; destruct keep_depot; destruct lag; destruct mat; destruct pm;
+    destruct a; destruct keep_depot; destruct lag; destruct mat; destruct pm; destruct bio;
       cbn [andb orb negb absk_eqb] in *; try discriminate;
       destruct tr as [|[|tr]]; scbn; try discriminate; reflexivity.
 Qed.
